@@ -9,6 +9,7 @@ pub mod c04;
 pub mod c05;
 pub mod c06;
 pub mod c07;
+pub mod c08;
 pub mod c09;
 pub mod c10;
 pub mod c11;
@@ -40,6 +41,7 @@ pub fn all() -> Vec<Prop> {
         Prop { id: "C05", level: "exploration", case: c05::case, run: c05::run, replay_reps: 8 },
         Prop { id: "C06", level: "exploration", case: c06::case, run: c06::run, replay_reps: 4 },
         Prop { id: "C07", level: "exploration", case: c07::case, run: c07::run, replay_reps: 4 },
+        Prop { id: "C08", level: "fault_enumeration", case: c08::case, run: c08::run, replay_reps: 3 },
         Prop { id: "C09", level: "exploration", case: c09::case, run: c09::run, replay_reps: 4 },
         Prop { id: "C10", level: "exploration", case: c10::case, run: c10::run, replay_reps: 4 },
         Prop { id: "C11", level: "exploration", case: c11::case, run: c11::run, replay_reps: 16 },
